@@ -1,3 +1,5 @@
-/- C18: the per-command decision theorems (Props/C18.lean) and the whole-build theorems (Props/C18World.lean). -/
+/- C18: the per-command decision theorems (Props/C18.lean) the whole-build theorems (Props/C18World.lean) and the
+   manifest self-regeneration loop (Props/C18Regen.lean). -/
 import LLBuild.Props.C18
 import LLBuild.Props.C18World
+import LLBuild.Props.C18Regen
